@@ -1,8 +1,9 @@
 #!/bin/bash
-# tools/seed_in.sh <round dir> <ID> <name-suffix>: import + verify + check one sub-agent seed
+# tools/seed_in.sh <round dir> <ID> <name-suffix>: import + verify + check one sub-agent seed.
+# The check runs on a scratch copy of /repo with the patch applied (tools/seed.py scratch): /repo itself is not touched.
 set -e
 R=$1; ID=$2; NAME=$3
 cd /verif
 python3 tools/seed.py import $R/$ID/_seed $NAME $ID >/dev/null
 python3 tools/seed.py verify $NAME | tail -1
-python3 tools/seed.py check $NAME $ID | tail -1 | cut -c1-400
+python3 tools/seed.py scratch $NAME $ID | tail -1 | cut -c1-400
